@@ -50,6 +50,8 @@ def rand_step(rng, ncallers, allow_drop=True):
     if x < 0.96:
         return {"op": "cancel", "c": rng.randrange(ncallers)}
     if allow_drop:
+        if rng.random() < 0.35:
+            return {"op": "drop_events"}      # the ConnectionEvents receiver may be dropped while the client stays in use
         return {"op": "drop", "c": rng.randrange(ncallers + 1)}
     return {"op": "timeout"}
 
@@ -82,10 +84,25 @@ def base(rng, run):
         cfg["max_read"] = rng.choice([1, 2, 3, 7])
     if rng.random() < 0.15:
         cfg["max_write"] = rng.choice([1, 3, 8, 20])
-    return {"run": run, "cfg": cfg, "batches": rand_batches(rng, nc, rng.randint(6, 22), allow_drop=rng.random() < 0.3)}
+    batches = rand_batches(rng, nc, rng.randint(6, 22), allow_drop=rng.random() < 0.3)
+    if rng.random() < 0.12:
+        # the user keeps the client and drops the ConnectionEvents receiver early: everything else must go on as before
+        batches.insert(rng.randint(0, 2), [{"op": "drop_events"}])
+    return {"run": run, "cfg": cfg, "batches": batches}
 
 
 def faults(rng, run):
+    if rng.random() < 0.2:
+        # the stream ends on a LINE boundary inside the reply to a command list (after j complete lines, among them the
+        # list_OK separators): a whole number of lines was received, yet the response is not complete
+        nc = rng.choice([1, 2])
+        cfg = {"callers": nc, "split_seed": rng.getrandbits(48) | 1}
+        pre = rand_batches(rng, nc, rng.randint(0, 4), allow_drop=False)
+        pre = [b for b in pre if not any(st["op"] in ("wstall", "wresume", "cancel") for st in b)]
+        lst = {"op": "issue", "c": 0, "kind": "list", "cmds": [{"fail": False, "pad": rng.choice([0, 0, 1, 2])} for _ in range(rng.randint(2, 4))]}
+        tail = [[{"op": "deliver"}], [{"op": "timeout"}], [lst], [{"op": "deliver"}], [{"op": "deliver"}],
+                [{"op": "deliver", "units": 2 * rng.randint(1, 7)}, {"op": "fault", "kind": "eof"}]]
+        return {"run": run, "cfg": cfg, "batches": pre + tail + rand_batches(rng, nc, rng.randint(0, 3), allow_drop=False)}
     s = base(rng, run)
     kind = rng.choice(["eof", "eof", "eof", "rerr", "werr", "garbage", "garbage"])
     pos = rng.randint(0, len(s["batches"]))
@@ -169,6 +186,8 @@ def art(rng, run):
     n = rng.randint(4, 14)
     art_at = rng.randint(0, 2)
     first_alt = multi and rng.random() < 0.5
+    if rng.random() < 0.15:
+        batches.append([{"op": "drop_events"}, {"op": "change", "subs": rng.sample(SUBS, 1)}])
     for i in range(n):
         b = []
         if i == art_at:
